@@ -274,6 +274,11 @@ class ConcreteCtx:
     def opq(self, name):
         return None
 
+    def regex(self, pattern):
+        import re
+
+        return re.compile(pattern, re.IGNORECASE)
+
     def reclist(self, name, schema):
         l = self.gen.reclist(name, schema)
         self._lists.append(l)
